@@ -463,22 +463,22 @@ class RlRaggedRavel(Family):
         n, VL, B, W = st["n"], st["VL"], st["B"], st["W"]
         VS = st["vals"]._shape.S
         # spy on the column-sliced boundaries to learn their geometry object
-        from .specragged import SpecRagged
-        real_getitem = SpecRagged.__getitem__
+        from .specragged import SpecRagged, _SpecRaggedMixin
+        real_getitem = _SpecRaggedMixin.__getitem__
 
         def spy(self_, idx):
             out = real_getitem(self_, idx)
             if isinstance(out, SpecRagged) and self_ is st["inds"]:
                 st["flat_shape"] = out._shape
             return out
-        SpecRagged.__getitem__ = spy
+        _SpecRaggedMixin.__getitem__ = spy
         from ..sym.theory import prefix_sum
         lens = st["inds"][:, -1]
         st["off"] = prefix_sum(lens)
         try:
             out = st["obj"].ravel()
         finally:
-            SpecRagged.__getitem__ = real_getitem
+            _SpecRaggedMixin.__getitem__ = real_getitem
         off, fs = st["off"], st["flat_shape"]
         self._lemmas(ctx, st, fs)
         ev, va = out._events, out._values
@@ -520,3 +520,82 @@ class RlRaggedRavel(Family):
                         rows.append([(v + i) // (pat + 1) % 3 for i in range(l)])
                         v += l
                     yield {"rows": rows}
+
+
+@register
+class RlRaggedColumnInt(Family):
+    """rr[:, j] on a RunLengthRaggedArray for an integer column j that exists in every row (0 <= j < len(row), or -len(row) <= j < 0): one value per
+    row, the value of THE run of row r containing position j (resp. len(row r) + j).  Two inductions over the flat mask (along a row: exactly one run
+    contains the position; over the rows: the t-th selected cell belongs to row t).  Operands are contract-level stand-ins (SpecRagged)."""
+    name = "IndexableMixin._getitem_tuple[:, int]"
+    qualname = "npstructures.runlengtharray:IndexableMixin._getitem_tuple"
+    serves = ["C17"]
+    timeout_ms = 30000
+    assumed = ["RaggedArray operations through their contracts (SpecRagged: x[:, -1], x[:, :-1], x[:, 1:], comparisons with a scalar / column, &, x[ragged mask]; audited)",
+               "numpy boolean-mask gather (flatnonzero rank / position functions)", "lemma same-lengths=>same-starts, lemma adjacent-sorted=>sorted (strict form) for the run boundaries"]
+
+    def kinds(self):
+        return ["j>=0", "j<0"]
+
+    def run(self, ctx, kind):
+        st = sym_rl_ragged(ctx)
+        n, VL, B, W = st["n"], st["VL"], st["B"], st["W"]
+        VS = st["vals"]._shape.S
+        ctx.assume_forall("B increasing (pairwise; lemma adjacent-sorted=>sorted)", lambda r_, a_, b_: z3.Implies(
+            z3.And(0 <= r_, r_ < n, 0 <= a_, a_ < b_, b_ <= VL(r_)), B(r_, a_) < B(r_, b_)), arity=3)
+        j = z3.Int("j")
+        cstar = z3.Function(fresh_name("run_of_column"), z3.IntSort(), z3.IntSort())
+        pos_in_row = (lambda r_: j) if kind == "j>=0" else (lambda r_: B(r_, VL(r_)) + j)
+        ctx.assume(j >= 0 if kind == "j>=0" else j < 0)
+        # requires: the column exists in every row; cstar(r) = the run of row r containing it (exists by lemma partition-point)
+        ctx.assume_forall("column j exists in every row, in run cstar(r)", lambda r_: z3.Implies(z3.And(0 <= r_, r_ < n), z3.And(
+            0 <= cstar(r_), cstar(r_) < VL(r_), B(r_, cstar(r_)) <= pos_in_row(r_), pos_in_row(r_) < B(r_, cstar(r_) + 1))))
+        ctx.declare_inputs(j)
+        out = st["obj"][:, SInt(j)]
+        if not isinstance(out, SymArr):
+            ctx.prove("post.no rows: the empty array itself", z3.And(n == 0, z3.BoolVal(out is not None)))
+            return
+        nz = out.nz
+        rk, pos, cnt, M = nz.rk, nz.pos, nz.cnt, nz.mask
+        r, c = z3.Int("r"), z3.Int("c")
+        ctx.skolem(z3.And(0 <= r, r < n, 0 <= c, c < VL(r)))
+        p = VS(r) + c
+        vrow = st["vals"]._shape.rowof
+        # the mask's own geometry objects (columns [:-1] and [1:] of the boundaries) have the values' row lengths => the same starts
+        ctx.prove_then_assume("lemma: the comparison mask, cell by cell: run c of row r is selected iff it contains the position",
+                              M(p) == (c == cstar(r)), pool=[r, r + 1, c, c + 1, p, cstar(r), cstar(r) + 1, VL(r), n, vrow(p), vrow(p) + 1], live=[r, c])
+        ctx.assume_forall("mask cell by cell (lemma above, (r, c) arbitrary)", lambda r_, c_: z3.Implies(z3.And(0 <= r_, r_ < n, 0 <= c_, c_ < VL(r_)),
+                          M(VS(r_) + c_) == (c_ == cstar(r_))), arity=2)
+        inv = lambda c_: rk(VS(r) + c_) == rk(VS(r)) + z3.If(c_ > cstar(r), 1, 0)
+        ctx.prove("lemmaA.base: c = 0", inv(z3.IntVal(0)), pool=[r], live=[c])
+        ctx.prove("lemmaA.step: along row r from c to c+1", z3.Implies(inv(c), inv(c + 1)), pool=[r, c, c + 1, p, p + 1, cstar(r)])
+        ctx.assume_forall("lemmaA (by induction on c)", lambda r_, c_: z3.Implies(z3.And(0 <= r_, r_ < n, 0 <= c_, c_ <= VL(r_)),
+                          rk(VS(r_) + c_) == rk(VS(r_)) + z3.If(c_ > cstar(r_), 1, 0)), arity=2)
+        r2 = z3.Int("r2")
+        ctx.skolem(z3.And(0 <= r2, r2 < n))
+        ctx.prove("lemmaB.base: rank of the first row start is 0", rk(VS(0)) == 0, pool=[z3.IntVal(0)], live=[r2])
+        ctx.prove("lemmaB.step: over the rows (each row selects exactly one run)", z3.Implies(rk(VS(r2)) == r2, rk(VS(r2 + 1)) == r2 + 1),
+                  pool=[r2, r2 + 1, VL(r2), cstar(r2)])
+        ctx.assume_forall("lemmaB (by induction on r)", lambda r_: z3.Implies(z3.And(0 <= r_, r_ <= n), rk(VS(r_)) == r_))
+        ctx.prove("post.one value per row", dim_term(out.shape_[0]) == n, pool=[n, VS(n)], live=[r2])
+        p2 = VS(r2) + cstar(r2)
+        ctx.prove("post.result[r] is the value of the run of row r that contains the position",
+                  out.get(r2) == W(r2, cstar(r2)), pool=[r2, r2 + 1, cstar(r2), cstar(r2) + 1, p2, p2 + 1, vrow(p2), vrow(p2) + 1, rk(p2), n, VS(n)])
+        ctx.prove("post.operands not modified", z3.BoolVal(st["inds"].writes == 0 and st["vals"].writes == 0))
+
+    def concrete(self, case):
+        from npstructures import RaggedArray
+        from npstructures.runlengtharray import RunLengthRaggedArray
+        rows = case["rows"]
+        rr = RunLengthRaggedArray.from_ragged_array(RaggedArray(rows))
+        m = min(len(r) for r in rows)
+        for j in list(range(m)) + list(range(-m, 0)):
+            got = np.asarray(rr[:, j]).tolist()
+            exp = [row[j] for row in rows]
+            if got != exp:
+                return {"msg": f"RunLengthRaggedArray rows {rows}: [:, {j}] gives {got}, expected {exp}", "sig": "wrong:rlragged-col-int"}
+
+    def concretise(self, kind, model, ghost):
+        return {"rows": [[1, 1, 2], [2, 3], [3, 3, 3, 4]]}
+
+    bounded_cases = RlRaggedRavel.bounded_cases
